@@ -13,7 +13,7 @@ if os.path.isdir(demo):
     d2 = os.path.join(dst, "demo")
     if os.path.exists(d2):
         shutil.rmtree(d2)
-    shutil.copytree(demo, d2, ignore=shutil.ignore_patterns("target", "*.rlib", "out", "Cargo.lock"))
+    shutil.copytree(demo, d2, ignore=shutil.ignore_patterns("target", "*.rlib", "out", "Cargo.lock", ".baseline*", "_before", "bin", "*.o", "*.rmeta"))
     # drop anything big
     for root, _, files in os.walk(d2):
         for f in files:
